@@ -5,6 +5,21 @@ props = [json.loads(l) for l in open('/verif/properties.jsonl')]
 ids = [p['id'] for p in props]
 # id -> (category, technique, text, note, design_ref)
 checks = {
+ 'C14': ('model_checking', 'explicit-state exploration of add/retract histories replayed on fresh instances of the real aggregates, compared with a from-scratch reference and a fresh-instance differential',
+         'All prefix-valid add/retract histories up to length 6 (8 thorough) over 3 values per type for every aggregate descriptor; Trigger() checked at every prefix with a non-empty net multiset.',
+         'Bounded history length and value domains; NaN/signed zero excluded (C09); float sums within 1e-9 relative tolerance.', '3/C14'),
+ 'C15': ('model_checking', 'explicit-state exploration of valid changelogs on every real execution node + exhaustive schedule enumeration for the joins (hook H1)',
+         'Every valid changelog up to the length bound on each single-input node (filter, map, distinct, simple and triggered group-by, order by, event-time buffer, lookup join, unnest) and every interleaving of every pair of per-side changelogs on the four join kinds; checks the output never retracts an absent row and that the consolidated output equals the batch operator on the consolidated input.',
+         'Bounded length/alphabet; NULL join keys excluded here (C02); LIMIT not in the property list.', '3/C15'),
+ 'C16': ('model_checking', 'explicit-state exploration of watermarked streams x all trigger configurations on the real group-by nodes',
+         'All 19 trigger configurations x every valid watermarked stream (retractions, same instant in two time zones, zero event times) up to the length bound; final consolidated output must equal the batch grouping.',
+         'Bounded length; no late records; trigger stacks built as the planner builds them.', '3/C16'),
+ 'C17': ('model_checking', 'same explorer as C16 with a step-wise reference trigger model',
+         'At every COUNTING firing point, every forwarded watermark and at end of stream the consolidated output is compared with the reference trigger model.',
+         'COUNTING oracle evaluated on zero-event-time streams (processing order = arrival order); no late records.', '3/C17'),
+ 'C22': ('model_checking', 'explicit-state exploration of changelogs with watermarks on the real output wrapper',
+         'Every valid changelog with watermarks up to length 5 (7 thorough): at each forwarded watermark emitted == input up to it, nothing emitted that was not in the input, everything emitted by end of stream.',
+         'No late records; retraction event time not before its insert.', '3/C22'),
  'C19': ('model_checking', 'stateless exhaustive schedule enumeration of the real join loops under a controller (hook H1)',
          'Every interleaving of every pair of valid per-side scripts (bounded length, 2 keys, 3 times, plus a retraction family) is executed on the real StreamJoin/OuterJoin; at every forwarded watermark and at end of stream the consolidated output must equal the reference join of the inputs up to that point.',
          'Assumes hook H1 reports every message taken (one message in flight at a time, so the schedule is the order the join sees); bounded script length; values compared, not output event times.', '3/C19'),
